@@ -22,7 +22,7 @@ Section Engine.
     | Err XFuel => throw XFuel
     | _ =>
         _ <- (match r with Err (XInvalid m) => if internal_msg m then mark_dirty else ret tt | _ => ret tt end) ;;
-        c <- cleanup LF (exec lvl) ;;
+        c <- cleanup LF (exec lvl) false ;;
         t <- get_ts ;;
         let r' := match c with
                   | Some e => Err e
